@@ -770,6 +770,10 @@ func (s *State) Commit(repo gitstore.Storer, commitMessage string, createRSLEntr
 				return repo.ResetDueToError(err, PolicyStagingRef, originalCommitID)
 			}
 
+			// The reference did not exist before, remove it again
+			if deleteErr := repo.DeleteReference(PolicyStagingRef); deleteErr != nil {
+				return fmt.Errorf("unable to remove %s, caused by following error: %w", PolicyStagingRef, err)
+			}
 			return err
 		}
 	}
@@ -867,6 +871,10 @@ func Apply(ctx context.Context, repo gitstore.Storer, signRSLEntry bool) error {
 			return repo.ResetDueToError(err, PolicyRef, policyTip)
 		}
 
+		// The reference did not exist before, remove it again
+		if deleteErr := repo.DeleteReference(PolicyRef); deleteErr != nil {
+			return fmt.Errorf("unable to remove %s, caused by following error: %w", PolicyRef, err)
+		}
 		return err
 	}
 
